@@ -474,6 +474,11 @@ func authClass(c caseT) (string, string) {
 		if !c.hasKeys {
 			return aBad, "assertion-without-registered-key"
 		}
+		if c.method == "none" {
+			// like a superfluous secret: a public client that additionally proves possession
+			// of a key on file has gained nothing an anonymous caller could not have
+			return aOpen, "public-client-superfluous-assertion"
+		}
 		if c.method != "private_key_jwt" {
 			if c.op == "introspect" {
 				// DESIGN 1.6: ClientIDFromRequest documents "JWT or Basic" for resource
